@@ -240,6 +240,22 @@ def _edit(obj):
             pass
 
 
+def _edit2(obj):
+    """A second legal edit after one more dump: one architecture is swapped for another IN PLACE (the set keeps its size and its
+    identity) and the new one gets its path."""
+    try:
+        v = obj["Server"]
+        if not v.arches or "riscv64" not in v.paths.os_tree:
+            return False
+        a = sorted(v.arches)[0]
+        v.arches.discard(a)
+        v.arches.add("mips64el")
+        v.paths.os_tree["mips64el"] = "Server/mips64el/os"
+        return True
+    except (KeyError, TypeError, AttributeError):
+        return False
+
+
 def _between_treeinfo(obj):
     """Dumps with an explicit main variant (not the default one), and a refused one, between the default dumps."""
     import io
@@ -320,6 +336,21 @@ def worker(orders, dumps):
                 if obj.dumps() != fresh.dumps():
                     fails.append("%s order %s: dumped %d times, then edited (tree arch / compose respin): the bytes differ from those of a "
                                  "never-dumped object given the same edit" % (kind, order, len(texts)))
+                never = fn(order)
+                _edit(never)
+                if _edit2(obj) and _edit2(never) and obj.dumps() != never.dumps():
+                    fails.append("%s order %s: dumped, edited, dumped, then one architecture swapped for another in place: the bytes differ "
+                                 "from those of a never-dumped object given the same edits" % (kind, order))
+                # what the header said before is not content: the current version is written whatever the object carried
+                for ver in ("1.3", "2.0", "1.10", "0.3"):
+                    other = fn(order)
+                    if not hasattr(other, "header"):
+                        break
+                    other.header.version = ver
+                    if other.dumps() != fn(order).dumps():
+                        fails.append("%s order %s: an object whose header carried version %s before is written differently from one "
+                                     "with the same content" % (kind, order, ver))
+                        break
             except Exception as exc:
                 fails.append("%s order %s: edit after dumping: %s: %s" % (kind, order, type(exc).__name__, exc))
             text = texts[0]
